@@ -1,6 +1,7 @@
 package main
 
 import (
+	"go/constant"
 	"fmt"
 	"go/token"
 	"go/types"
@@ -1588,6 +1589,54 @@ func ruleTSCAN(p *Program, r *Reporter) {
 		}
 		scans = append(scans, scan{iff, bad, good, header})
 	}
+	// a scan delegated to a helper: g(results) returns a non-zero value exactly when
+	// it found a result whose Error is non-empty; the caller branches on that value
+	for _, b := range fn.Blocks {
+		iff, ok := b.Instrs[len(b.Instrs)-1].(*ssa.If)
+		if !ok {
+			continue
+		}
+		cond := iff.Cond
+		neg := false
+		for {
+			if u, ok := cond.(*ssa.UnOp); ok && u.Op == token.NOT {
+				cond = u.X
+				neg = !neg
+				continue
+			}
+			break
+		}
+		var call *ssa.Call
+		if bo, ok := cond.(*ssa.BinOp); ok && (bo.Op == token.NEQ || bo.Op == token.EQL) {
+			if c, ok := bo.Y.(*ssa.Const); ok && c.IsNil() {
+				call, _ = bo.X.(*ssa.Call)
+			} else if c, ok := bo.X.(*ssa.Const); ok && c.IsNil() {
+				call, _ = bo.Y.(*ssa.Call)
+			}
+			if bo.Op == token.EQL {
+				neg = !neg
+			}
+		} else if c, ok := cond.(*ssa.Call); ok {
+			call = c
+		}
+		if call == nil {
+			continue
+		}
+		g := call.Call.StaticCallee()
+		if g == nil || pkgOf(g) != "server" {
+			continue
+		}
+		pol, isScan := errorScanHelper(g, errFld)
+		if !isScan {
+			continue
+		}
+		// pol: true = helper returns non-zero when an error was found
+		bad, good := b.Succs[0], b.Succs[1]
+		if neg != !pol {
+			bad, good = good, bad
+		}
+		scans = append(scans, scan{iff, bad, good, b})
+	}
 	for _, t := range targets {
 		name := "processMonitors"
 		if t.Call.IsInvoke() {
@@ -1608,4 +1657,84 @@ func ruleTSCAN(p *Program, r *Reporter) {
 		}
 		r.Ob(id, funcName(fn), name+" after error scan", t.Pos(), okk, true, why)
 	}
+}
+
+// errorScanHelper: g loops over a parameter and tests <elem>.Error != ""; every
+// return reached from the "found" branch before the next iteration yields a
+// non-zero value and every other return the zero value (polarity true), or the
+// reverse (polarity false).
+func errorScanHelper(g *ssa.Function, errFld *types.Var) (polarity bool, ok bool) {
+	if g == nil || len(g.Blocks) == 0 || g.Signature.Results().Len() != 1 {
+		return false, false
+	}
+	isZero := func(v ssa.Value) (bool, bool) {
+		c, isC := v.(*ssa.Const)
+		if !isC {
+			return false, true // not a constant: treat as non-zero (a found element, an error value)
+		}
+		if c.IsNil() || c.Value == nil {
+			return true, true
+		}
+		if c.Value.Kind() == constant.Bool {
+			return !constant.BoolVal(c.Value), true
+		}
+		return false, false
+	}
+	for _, b := range g.Blocks {
+		iff, isIf := b.Instrs[len(b.Instrs)-1].(*ssa.If)
+		if !isIf {
+			continue
+		}
+		bo, isBo := iff.Cond.(*ssa.BinOp)
+		if !isBo || (bo.Op != token.NEQ && bo.Op != token.EQL) {
+			continue
+		}
+		var other ssa.Value
+		if c, ok := bo.Y.(*ssa.Const); ok && c.Value != nil && c.Value.ExactString() == `""` {
+			other = bo.X
+		} else if c, ok := bo.X.(*ssa.Const); ok && c.Value != nil && c.Value.ExactString() == `""` {
+			other = bo.Y
+		} else {
+			continue
+		}
+		ld, isLd := other.(*ssa.UnOp)
+		if !isLd {
+			continue
+		}
+		fa, isFA := ld.X.(*ssa.FieldAddr)
+		if !isFA || fieldOfAddr(fa) != errFld {
+			continue
+		}
+		bad := b.Succs[0]
+		if bo.Op == token.EQL {
+			bad = b.Succs[1]
+		}
+		// the found branch must return directly
+		ret, isRet := bad.Instrs[len(bad.Instrs)-1].(*ssa.Return)
+		if !isRet || len(ret.Results) != 1 {
+			continue
+		}
+		badZero, known := isZero(ret.Results[0])
+		if !known {
+			continue
+		}
+		// every other return yields the opposite
+		consistent := true
+		n := 0
+		for _, b2 := range g.Blocks {
+			r2, isRet := b2.Instrs[len(b2.Instrs)-1].(*ssa.Return)
+			if !isRet || b2 == bad {
+				continue
+			}
+			n++
+			z, known := isZero(r2.Results[0])
+			if !known || z == badZero {
+				consistent = false
+			}
+		}
+		if consistent && n > 0 {
+			return !badZero, true
+		}
+	}
+	return false, false
 }
